@@ -296,6 +296,9 @@ def kstep_sx(st):
             if b[0] == 'cr':
                 # an ordering against a `$` path: ('cr', inner, op, root steps); ('re', root steps) / ('rn', root steps): `$ steps` / `!$ steps`
                 return '(cr (%s) %d (%s))' % (inner, b[2], ' '.join('(%s)' % kstep_sx(x) for x in b[3]))
+            if b[0] == 'x':
+                # a regular-expression test @inner=~/body/: ('x', inner, body code points)
+                return '(x (%s) %s)' % (inner, ' '.join(str(x) for x in b[2]))
             if b[0] == 'pq':
                 # == / != between the member's value and what a `$` path reaches: ('pq', inner, ne, root steps)
                 return '(pq (%s) %d (%s))' % (inner, 1 if b[2] else 0, ' '.join('(%s)' % kstep_sx(x) for x in b[3]))
